@@ -177,12 +177,17 @@ def _expected_for_name(name, fg, bg, sty):
 
 def _is_helper(v):
     """A public callable defined in fmtfuncs: a functools.partial of fmtstr or a function written out."""
+    from ..absint import LocalFunc
     from ..consteval import FuncRef
-    return isinstance(v, Partial) or (isinstance(v, FuncRef) and v.mod == "fmtfuncs")
+    return isinstance(v, (Partial, LocalFunc)) or (isinstance(v, FuncRef) and v.mod == "fmtfuncs")
 
 
 def rule_t1(src, rep, it, fg, bg, sty, counts):
     env = it.folder.module("fmtfuncs")
+    from ..consteval import TOP
+    unknown = sorted(k for k, v in env.items() if v is TOP and not k.startswith("_"))
+    if unknown:
+        raise AnalysisError("fmtfuncs: the public names %s are outside the evaluated subset (%s)" % (unknown[:6], it.folder.unknown.get("fmtfuncs", [])[:2]))
     names = [k for k, v in env.items() if _is_helper(v) and not k.startswith("_")]
     counts["fmtfuncs"] = len(names)
     where = "curtsies/fmtfuncs.py"
@@ -211,6 +216,29 @@ def rule_t1(src, rep, it, fg, bg, sty, counts):
                "%s('text') gives %s, its name promises attributes %s" % (n, runs_of(res[1]) if res[0] == "ok" else res, exp))
         rep.case(True, {"helper": n, "result": str(exp)} if n in ("red", "on_blue", "bold") else None)
         seen_attr.add(tuple(sorted(exp.items())))
+        # ... every time: a call with further names (accepted or rejected) must not change what the next plain call does
+        if ok and n != "plain":
+            extras = [("bold",) if "bold" not in exp else ("underline",), ("blink", "green", "yellow") if "fg" not in exp else ("blink", "on_green", "on_yellow")]
+            for extra in extras:
+                try:
+                    it.folder.v_call(p, [T] + list(extra), {}, None, {})
+                except FoldedRaise:
+                    pass
+                except Unknown as e:
+                    raise AnalysisError("fmtfuncs.%s%r is outside the evaluated subset: %s" % (n, extra, e))
+                try:
+                    again = ("ok", it.folder.v_call(p, [T], {}, None, {}))
+                except FoldedRaise as e:
+                    again = ("raise", e.name)
+                except Unknown as e:
+                    raise AnalysisError("fmtfuncs.%s is outside the evaluated subset: %s" % (n, e))
+                ok2 = again[0] == "ok" and runs_of(again[1]) == [(T, exp)]
+                rep.case(True)
+                if not ok2:
+                    rep.ob("T1-helper-does-what-its-name-says", where, "fmtfuncs:%s" % n, "%s('text') after %s('text', %s)" % (n, n, ", ".join(map(repr, extra))), False,
+                           "after the call %s('text', %s) a plain %s('text') gives %s, its name promises attributes %s" %
+                           (n, ", ".join(map(repr, extra)), n, runs_of(again[1]) if again[0] == "ok" else again, exp))
+                    break
     # exhaustiveness: every colour has an fg and an on_ helper, every style has one
     missing = [c for c in fg if c not in names] + ["on_" + c for c in bg if "on_" + c not in names] + [s for s in sty if s not in names]
     rep.ob("T1-helpers-exhaustive", where, "fmtfuncs:<module>", "helpers for every colour / on_colour / style", not missing,
@@ -527,9 +555,14 @@ def rule_t6(src, rep, it, counts):
     for runs in layouts:
         n += 1
         obj = mk(it, *runs)
-        r = it.call1("formatstring", "FmtStr.shared_atts", obj)
-        if r[0] == "opaque":
-            raise AnalysisError("shared_atts outside the evaluated subset: %s" % r[1])
+        def read():
+            try:
+                return ("ok", it.folder.obj_attr(obj, "shared_atts"))
+            except FoldedRaise as e:
+                return ("raise", e.name)
+            except Unknown as e:
+                raise AnalysisError("shared_atts outside the evaluated subset: %s" % e)
+        r = read()
         if r[0] != "ok":
             ok = False
             why = "raises %s" % r[1]
@@ -539,6 +572,17 @@ def rule_t6(src, rep, it, counts):
             wrong = {k: v for k, v in res.items() if any(k not in a or a[k] != v for a in nonempty)}
             ok = not wrong
             why = "reports %s although not every character has it" % wrong
+            if ok and isinstance(r[1], dict):
+                # what a caller does with an answer (the `atts = f.shared_atts; atts['bg'] = 44; fmtstr(x, **atts)` idiom) is the
+                # caller's business: the next answer is again what every character has
+                r[1]["bg"] = 44
+                for k in [k for k in r[1] if k != "bg"][:1]:
+                    del r[1][k]
+                r2 = read()
+                res2 = (dict(r2[1].payload) if isinstance(r2[1], Obj) else dict(r2[1])) if r2[0] == "ok" else r2
+                if res2 != res:
+                    ok = False
+                    why = "reports %s after the caller edited the dict it got from an earlier call; it reported %s before" % (res2, res)
         rep.case(True)
         if not ok:
             bad += 1
